@@ -34,15 +34,21 @@ def draw_spec(ch, tag, pkg_ids, kinds=('S', 'M'), phases=ALL_PHASES, T=(250., 50
 def build(spec):
     """Create the real Stream / MultiStream described by ``spec`` (ID=None)."""
     th = chem.package(spec['pkg']) if isinstance(spec['pkg'], str) else spec['pkg']
-    if spec['kind'] == 'S':
+    order = spec.get('order')   # optional insertion order of the stored entries (a hidden degree of freedom of sparse data)
+    if spec['kind'] == 'S' and order is None:
         s = tmo.Stream(None, flow=np.array(spec['flows'][0], float), phase=spec['phases'][0],
                        T=spec['T'], P=spec['P'], thermo=th)
+    elif spec['kind'] == 'S':
+        s = tmo.Stream(None, phase=spec['phases'][0], T=spec['T'], P=spec['P'], thermo=th)
+        d = s.imol.data.dct
+        for i in order:
+            if spec['flows'][0][i]: d[i] = float(spec['flows'][0][i])
     else:
         s = tmo.MultiStream(None, phases=tuple(spec['phases']), T=spec['T'], P=spec['P'], thermo=th)
         for p, row in zip(spec['phases'], spec['flows']):
             d = s.imol.data.rows[s.imol.get_phase_index(p)].dct
-            for i, v in enumerate(row):
-                if v: d[i] = float(v)
+            for i in (order if order is not None else range(len(row))):
+                if row[i]: d[i] = float(row[i])
     return s
 
 
